@@ -225,7 +225,10 @@ func (p c05) Exec(c *sim.Case, env *Env) []sim.Violation {
 	for i, edit := range []func() error{
 		func() error { return d.SetTitle(fmt.Sprintf("late title %d", c.Run)) },
 		func() error { return d.SetPageMargins(11, 12, 13, 14) },
-		func() error { d.GetStyleManager().CreateCustomStyle("LateStyle", "late", "paragraph", "Normal"); return nil },
+		func() error {
+			d.GetStyleManager().CreateCustomStyle("LateStyle", "late", "paragraph", "Normal")
+			return nil
+		},
 	} {
 		if c.C("offset_set") != 0 {
 			break
